@@ -38,7 +38,8 @@ Chains == <<
   C("elif", "if a:\n    pass\n", "elif b:\n    pass\n", ""), C("imports", "import a", ", b", "\n"), C("calls", "f", "(a)", "\n"), C("subscripts", "x", "[0]", "\n"), C("pow", "", "a ** ", "a\n"), \* 11-15
   C("ornot", "", "not a or ", "b\n"), C("andand", "", "a && ", "b\n"), C("pipe", "$(a ", "| b ", ")\n"), C("semis", "", "x; ", "y\n"), C("kwargs", "f(", "k=a, ", ")\n"), \* 16-20
   C("targets", "", "a = ", "b\n"), C("tupletarget", "", "a, ", "b = c\n"), C("withitems", "with ", "a as b, ", "c: pass\n"), C("decorators", "", "@d\n", "def f(): pass\n"), C("params", "def f(", "p, ", "q): pass\n"), \* 21-25
-  C("fstrfields", "f'", "{a}b", "'\n"), C("matchcases", "match x:\n", "    case 1:\n        pass\n", ""), C("orpattern", "match x:\n    case ", "1 | ", "2:\n        pass\n"), C("globalnames", "global a", ", b", "\n"), C("macroargs", "f!(", "a b, ", "c)\n") \* 26-30
+  C("fstrfields", "f'", "{a}b", "'\n"), C("matchcases", "match x:\n", "    case 1:\n        pass\n", ""), C("orpattern", "match x:\n    case ", "1 | ", "2:\n        pass\n"), C("globalnames", "global a", ", b", "\n"), C("macroargs", "f!(", "a b, ", "c)\n"), \* 26-30
+  C("unclosedpath", "x = `", "ab", "\n"), C("unclosedstring", "x = 'a", "\\'b", "\n"), C("comment", "x = 1  #", " c `", "\n")    \* 31-33 one token (or none): time, not token work
 >>
 \* block constructors: header line, and the lines that close the block at the header's own indentation ("" = none)
 B(id, head, post) == [id |-> id, head |-> head, post |-> post]
